@@ -61,10 +61,13 @@ CHECKS = {
     "C16": dict(tests=[rapid("e2e", "TestC16", 32, 1600, qs=16, ts=16, timeout=1500, ttimeout=14000, replay="(TestC16Replay|TestC16BatchReplay)")]),  # one rapid check = a batch of 12 cases run concurrently
     "C17": dict(tests=[
         rapid("pure", "TestC17", 32000, 3200000, qs=8, shrinktime="8s"),  # a hanging request costs 10 s per attempt: do not shrink for long
+        fuzz("pure", "FuzzC17Request", 120),
     ]),
     "C18": dict(tests=[
         rapid("storeprops", "TestC18Outputs", 8000, 800000, qs=4, replay="TestC18OutputsReplay"),
         rapid("storeprops", "TestC18Stores", 8000, 800000, qs=4, replay="TestC18StoresReplay"),
+        fuzz("storeprops", "FuzzC18Outputs", 90),
+        fuzz("storeprops", "FuzzC18Stores", 90),
     ]),
     "C12": dict(tests=[
         loop("pure", "TestC12Grid", qs=12, ts=16, replay="TestC12GridReplay"),
